@@ -66,8 +66,9 @@ type FlowP struct {
 	Emitters  int        `json:"emitters,omitempty"`
 	EmitNest  bool       `json:"emit_nest,omitempty"`
 	InstrFlow bool       `json:"instr_flow,omitempty"`
-	OptSeed   int64      `json:"opt_seed"`  // shuffles the option order
-	WrapArgs  bool       `json:"wrap_args"` // wrap directive arguments in rt.Arg probes
+	OptSeed   int64      `json:"opt_seed"`            // shuffles the option order
+	WrapArgs  bool       `json:"wrap_args"`           // wrap directive arguments in rt.Arg probes
+	ErrIdent  bool       `json:"err_ident,omitempty"` // a directive argument mentions the user's variable err
 }
 
 type PEnd struct {
@@ -107,6 +108,7 @@ type ParP struct {
 	InstrPar  bool    `json:"instr_par,omitempty"`
 	OptSeed   int64   `json:"opt_seed"`
 	WrapArgs  bool    `json:"wrap_args"`
+	ErrIdent  bool    `json:"err_ident,omitempty"`
 	Generic   bool    `json:"generic,omitempty"` // enclosing function is generic
 }
 
